@@ -321,3 +321,35 @@ theorem leaf_iff' (s : Store K E) (h : Mirror s) (u : K) :
 
 end Di
 end G
+
+namespace G
+variable {K E : Type} [DecidableEq K]
+
+theorem swapStore_get (s : Store K E) (k : K) :
+    (swapStore s).get k = { out := (s.get k).inn, inn := (s.get k).out } := by
+  unfold swapStore Store.get
+  simp only [List.find?_map]
+  cases h : List.find? ((fun p => decide (p.1 = k)) ∘ fun p : K × Adj K E => (p.1, ({ out := p.2.inn, inn := p.2.out } : Adj K E))) s.cells with
+  | none =>
+    have h' : List.find? (fun p => decide (p.1 = k)) s.cells = none := by
+      simpa [Function.comp_def] using h
+    simp [h']
+  | some p =>
+    have h' : List.find? (fun p => decide (p.1 = k)) s.cells = some p := by
+      simpa [Function.comp_def] using h
+    simp [h']
+
+theorem Transpose.eq_swap' (s : Store K E) : inAdj s = outAdj (swapStore s) ∧ outAdj s = inAdj (swapStore s) := by
+  constructor <;> funext k <;> simp [inAdj, outAdj, swapStore_get]
+
+theorem Transpose.swap_reverses' (s : Store K E) (h : Mirror s) (u v : K) (e : E) :
+    (u, e) ∈ outAdj (swapStore s) v ↔ (v, e) ∈ outAdj s u := by
+  simp only [outAdj, swapStore_get]
+  have hm := h u v
+  have h1 : (u, e) ∈ (s.get v).inn ↔ e ∈ vals (s.get v).inn u := by
+    simp [vals, List.mem_map, List.mem_filter]
+  have h2 : (v, e) ∈ (s.get u).out ↔ e ∈ vals (s.get u).out v := by
+    simp [vals, List.mem_map, List.mem_filter]
+  rw [h1, h2, hm]
+
+end G
